@@ -6,8 +6,39 @@ From Garden Require Import Typing.
 Import ListNotations.
 Open Scope Z_scope.
 
-Lemma ty_eqb_eq a b : ty_eqb a b = true <-> a = b.
-Proof. destruct a, b; cbn; split; intros H; try discriminate; reflexivity. Qed.
+Lemma ty_eqb_eq a : forall b, ty_eqb a b = true <-> a = b.
+Proof.
+  induction a as [| | | | | | |a IH|a1 IH1 a2 IH2]; intros b; destruct b; cbn [ty_eqb]; split; intros H; try discriminate; try reflexivity.
+  - apply IH in H. now subst.
+  - inversion H; subst. now apply IH.
+  - apply andb_true_iff in H. destruct H as [H1 H2]. apply IH1 in H1. apply IH2 in H2. now subst.
+  - inversion H; subst. apply andb_true_iff. split; [now apply IH1|now apply IH2].
+Qed.
+
+Lemma has_type_novalue v : has_type v TNoValue = false.
+Proof. destruct v; reflexivity. Qed.
+
+Lemma sub_refl a : sub a a = true.
+Proof. induction a; cbn; auto. rewrite IHa1, IHa2. reflexivity. Qed.
+
+Lemma sub_sound : forall v a b, has_type v a = true -> sub a b = true -> has_type v b = true.
+Proof.
+  induction v as [z|bb|st| |l|w IH| |w1 IH1 w2 IH2]; intros a b HV SB; destruct a; try discriminate;
+    try (cbn [sub] in SB; apply ty_eqb_eq in SB; subst b; exact HV).
+  - destruct b; try discriminate; [|exact HV]. cbn [has_type] in *. destruct l; [reflexivity|discriminate].
+  - destruct b; try discriminate. cbn [sub has_type] in *. eapply IH; eauto.
+  - destruct b; try discriminate. reflexivity.
+  - destruct b; try discriminate. cbn [sub has_type] in *.
+    apply andb_true_iff in HV. destruct HV as [H1 H2]. apply andb_true_iff in SB. destruct SB as [S1 S2].
+    rewrite (IH1 _ _ H1 S1), (IH2 _ _ H2 S2). reflexivity.
+Qed.
+
+Lemma join_sound a b t : join a b = Some t -> sub a t = true /\ sub b t = true.
+Proof.
+  unfold join. destruct (sub a b) eqn:E1.
+  - intros H; inversion H; subst. split; [exact E1|apply sub_refl].
+  - destruct (sub b a) eqn:E2; [|discriminate]. intros H; inversion H; subst. split; [apply sub_refl|exact E2].
+Qed.
 
 Definition R (a : ident * ty) (b : ident * value) : Prop :=
   fst a = fst b /\ has_type (snd b) (snd a) = true.
@@ -65,25 +96,32 @@ Qed.
 Lemma tl_ok s G r : env_ok (s :: G) r -> env_ok G (tl r).
 Proof. intros H. inversion H; subst. exact H4. Qed.
 
-Definition good (t : ty) (G : ctx) (x : res (value * env)) : Prop :=
+(* a `return v` on its way to the enclosing call carries a value of the declared return type *)
+Definition ret_ok (rt : option ty) (v : value) : Prop :=
+  match rt with Some t => has_type v t = true | None => False end.
+
+Definition good (rt : option ty) (t : ty) (G : ctx) (x : res (value * env)) : Prop :=
   match x with
   | Ok (v, r') => has_type v t = true /\ env_ok G r'
   | TypeErr => False
+  | Return v => ret_ok rt v
   | _ => True
   end.
 
-Definition sound_f (tcf : ctx -> tm -> option ty) (evf : env -> tm -> res (value * env)) : Prop :=
-  forall G r e t, tcf G e = Some t -> env_ok G r -> good t G (evf r e).
+Definition sound_f (rt : option ty) (tcf : ctx -> tm -> option ty) (evf : env -> tm -> res (value * env)) : Prop :=
+  forall G r e t, tcf G e = Some t -> env_ok G r -> good rt t G (evf r e).
 
 Section Parametric.
 Variable tcf : ctx -> tm -> option ty.
 Variable evf : env -> tm -> res (value * env).
-Hypothesis SF : sound_f tcf evf.
+Variable rt : option ty.
+Hypothesis SF : sound_f rt tcf evf.
 
 Lemma list_sound : forall l G r ts, tc_list tcf G l = Some ts -> env_ok G r ->
   match ev_list evf r l with
   | Ok (vs, r') => Forall2 (fun v t => has_type v t = true) vs ts /\ env_ok G r'
   | TypeErr => False
+  | Return w => ret_ok rt w
   | _ => True
   end.
 Proof.
@@ -91,15 +129,16 @@ Proof.
   - inversion H; subst. split; [constructor|exact OKr].
   - destruct (tcf G e) as [t|] eqn:T; [|discriminate].
     destruct (tc_list tcf G l) as [ts'|] eqn:TL; [|discriminate]. inversion H; subst.
-    pose proof (SF G r e t T OKr) as GE. destruct (evf r e) as [[v r1]| | |]; cbn [good] in GE; auto.
+    pose proof (SF G r e t T OKr) as GE. destruct (evf r e) as [[v r1]| | | |w0]; cbn [good] in GE; auto.
     destruct GE as [HV OK1]. specialize (IH G r1 ts' TL OK1).
-    destruct (ev_list evf r1 l) as [[vs r2]| | |]; auto. destruct IH as [F2 OK2]. split; [constructor; assumption|exact OK2].
+    destruct (ev_list evf r1 l) as [[vs r2]| | | |w0]; auto. destruct IH as [F2 OK2]. split; [constructor; assumption|exact OK2].
 Qed.
 
 Lemma stmts_sound : forall l s G0 r t, tc_stmts tcf (s :: G0) l = Some t -> env_ok (s :: G0) r ->
   match ev_stmts evf r l with
   | Ok (v, r') => has_type v t = true /\ exists s', env_ok (s' :: G0) r'
   | TypeErr => False
+  | Return w => ret_ok rt w
   | _ => True
   end.
 Proof.
@@ -109,85 +148,122 @@ Proof.
     assert (LET : forall x rhs, e = TmLet x rhs ->
               match ev_stmts evf r (e :: l) with
               | Ok (v, r') => has_type v t = true /\ exists s', env_ok (s' :: G0) r'
-              | TypeErr => False | _ => True end).
+              | TypeErr => False | Return w => ret_ok rt w | _ => True end).
     { intros x rhs ->. cbn [tc_stmts ev_stmts ev_one] in *.
       destruct (tcf (s :: G0) rhs) as [t1|] eqn:T; [|discriminate].
-      pose proof (SF _ r rhs t1 T OKr) as GE. destruct (evf r rhs) as [[v r1]| | |]; cbn [good] in GE; auto.
+      pose proof (SF _ r rhs t1 T OKr) as GE. destruct (evf r rhs) as [[v r1]| | | |w0]; cbn [good] in GE; auto.
       destruct GE as [HV OK1]. pose proof (bind_ok x t1 v _ _ OK1 HV) as OKB. cbn [bind] in OKB.
       destruct l as [|ee ll].
       - inversion H; subst. split; [reflexivity|]. destruct r1; cbn [bind] in *; eauto.
       - assert (OKB' : env_ok (((x, t1) :: s) :: G0) (bind x v r1)) by exact OKB.
         exact (IH _ _ _ _ H OKB'). }
-    assert (OTHER : (forall x rhs, e <> TmLet x rhs) ->
+    assert (LETP : forall x y rhs, e = TmLetPair x y rhs ->
+              match ev_stmts evf r (e :: l) with
+              | Ok (v, r') => has_type v t = true /\ exists s', env_ok (s' :: G0) r'
+              | TypeErr => False | Return w => ret_ok rt w | _ => True end).
+    { intros x y rhs ->. cbn [tc_stmts ev_stmts ev_one] in *.
+      destruct (tcf (s :: G0) rhs) as [t1|] eqn:T; [|discriminate]. destruct t1 as [| | | | | | | |ta tb]; try discriminate.
+      destruct (N.eqb x y); [discriminate|].
+      pose proof (SF _ r rhs _ T OKr) as GE. destruct (evf r rhs) as [[v r1]| | | |w0]; cbn [good] in GE; auto.
+      destruct GE as [HV OK1]. destruct v; try discriminate. cbn [has_type] in HV.
+      apply andb_true_iff in HV. destruct HV as [HA HB].
+      pose proof (bind_ok y tb v2 _ _ (bind_ok x ta v1 _ _ OK1 HA) HB) as OKB. cbn [bind] in OKB.
+      destruct l as [|ee ll].
+      - inversion H; subst. split; [reflexivity|]. destruct r1; cbn [bind] in *; eauto.
+      - assert (OKB' : env_ok (((y, tb) :: (x, ta) :: s) :: G0) (bind y v2 (bind x v1 r1))) by exact OKB.
+        exact (IH _ _ _ _ H OKB'). }
+    assert (OTHER : (forall x rhs, e <> TmLet x rhs) -> (forall x y rhs, e <> TmLetPair x y rhs) ->
               tc_stmts tcf (s :: G0) (e :: l) =
                 match tcf (s :: G0) e with
                 | Some t0 => match l with [] => Some t0 | _ => tc_stmts tcf (s :: G0) l end
                 | None => None end /\ ev_one evf r e = evf r e).
-    { intros NL. destruct e; try (split; reflexivity). exfalso. eapply NL. reflexivity. }
-    destruct e; try (exact (LET _ _ eq_refl));
-      (destruct OTHER as [E1 E2]; [intros x0 rhs0 C; discriminate C|];
+    { intros NL NLP. destruct e; try (split; reflexivity); exfalso; [eapply NL|eapply NLP]; reflexivity. }
+    destruct e; try (exact (LET _ _ eq_refl)); try (exact (LETP _ _ _ eq_refl));
+      (destruct OTHER as [E1 E2]; [intros x0 rhs0 C; discriminate C|intros x0 y0 rhs0 C; discriminate C|];
        rewrite E1 in H; rewrite E2;
        match type of H with context [tcf ?g ?e0] => destruct (tcf g e0) as [t0|] eqn:T; [|discriminate];
-         pose proof (SF _ r e0 t0 T OKr) as GE; destruct (evf r e0) as [[v r1]| | |]; cbn [good] in GE; auto;
+         pose proof (SF _ r e0 t0 T OKr) as GE; destruct (evf r e0) as [[v r1]| | | |w0]; cbn [good] in GE; auto;
          destruct GE as [HV OK1]; destruct l as [|ee ll];
          [inversion H; subst; split; [exact HV|eauto]|exact (IH _ _ _ _ H OK1)] end).
 Qed.
 
-Lemma block_sound l G r t : tc_stmts tcf ([] :: G) l = Some t -> env_ok G r -> good t G (ev_block evf r l).
+Lemma block_in_sound l s sc0 G r t :
+  tc_stmts tcf (s :: G) l = Some t -> Forall2 R s sc0 -> env_ok G r -> good rt t G (ev_block_in evf sc0 r l).
 Proof.
-  intros H OKr. unfold ev_block.
-  assert (OK0 : env_ok ([] :: G) ([] :: r)) by (constructor; [constructor|exact OKr]).
-  pose proof (stmts_sound l [] G ([] :: r) t H OK0) as S.
-  destruct (ev_stmts evf ([] :: r) l) as [[v r']| | |]; cbn [good]; auto.
+  intros H OKs OKr. unfold ev_block_in.
+  assert (OK0 : env_ok (s :: G) (sc0 :: r)) by (constructor; assumption).
+  pose proof (stmts_sound l s G (sc0 :: r) t H OK0) as S.
+  destruct (ev_stmts evf (sc0 :: r) l) as [[v r']| | | |w]; cbn [good]; auto.
   destruct S as [HV (s' & OK')]. split; [exact HV|]. eapply tl_ok; eauto.
+Qed.
+
+Lemma block_sound l G r t : tc_stmts tcf ([] :: G) l = Some t -> env_ok G r -> good rt t G (ev_block evf r l).
+Proof. intros H OKr. apply (block_in_sound l [] [] G r t H); [constructor|exact OKr]. Qed.
+
+Lemma for_sound x tx body G t : tc_stmts tcf ([(x, tx)] :: G) body = Some t ->
+  forall vs r, forallb (fun v => has_type v tx) vs = true -> env_ok G r ->
+  good rt TUnit G (ev_for evf x body vs r).
+Proof.
+  intros H. induction vs as [|v vs IH]; intros r ALL OKr; cbn [ev_for].
+  - split; [reflexivity|exact OKr].
+  - cbn [forallb] in ALL. apply andb_true_iff in ALL. destruct ALL as [HV ALL].
+    assert (OKs : Forall2 R [(x, tx)] [(x, v)]).
+    { constructor; [|constructor]. split; [reflexivity|exact HV]. }
+    pose proof (block_in_sound body _ _ G r t H OKs OKr) as B.
+    destruct (ev_block_in evf [(x, v)] r body) as [[v2 r2]| | | |w]; cbn [good] in *; auto.
+    destruct B as [_ OK2]. now apply IH.
 Qed.
 End Parametric.
 
 Definition fenv_ok (F : fenv) : Prop :=
-  forall f d, assoc f F = Some d -> exists n, tc_stmts (tc n F) [fparams d] (fbody d) = Some (fret d).
+  forall f d, assoc f F = Some d ->
+    exists n t, tc_stmts (tc n F (Some (fret d))) [fparams d] (fbody d) = Some t /\ sub t (fret d) = true.
 
 Lemma bop_sound o ta tb t va vb :
   bop_ty o ta tb = Some t -> has_type va ta = true -> has_type vb tb = true ->
-  match eval_bop o va vb with Ok v => has_type v t = true | TypeErr => False | _ => True end.
+  match eval_bop o va vb with Ok v => has_type v t = true | TypeErr => False | Return _ => False | _ => True end.
 Proof.
-  intros H HA HB. destruct o; cbn [bop_ty eval_bop] in *.
-  - destruct (ty_eqb ta TInt) eqn:E1; [|discriminate]. destruct (ty_eqb tb TInt) eqn:E2; [|discriminate].
-    apply ty_eqb_eq in E1, E2. subst. inversion H; subst.
-    destruct va; try discriminate. destruct vb; try discriminate.
-    assert (RI : forall zz, match ret_int zz with Ok v => has_type v TInt = true | TypeErr => False | _ => True end).
+  intros H HA HB.
+  assert (TWO : forall tt, (if sub ta tt && sub tb tt then Some t else None) = Some t \/ True ->
+                 sub ta tt && sub tb tt = true -> has_type va tt = true /\ has_type vb tt = true).
+  { intros tt _ E. apply andb_true_iff in E. destruct E as [E1 E2]. split; eapply sub_sound; eauto. }
+  destruct o; cbn [bop_ty eval_bop] in *.
+  - destruct (sub ta TInt && sub tb TInt) eqn:E; [|discriminate]. cbn [andb] in H.
+    destruct (negb (ty_eqb ta TNoValue && ty_eqb tb TNoValue)); [|discriminate]. inversion H; subst.
+    destruct (TWO TInt (or_intror I) E) as [A B]. destruct va; try discriminate. destruct vb; try discriminate.
+    assert (RI : forall zz, match ret_int zz with Ok v => has_type v TInt = true | TypeErr => False | Return _ => False | _ => True end).
     { intros zz. unfold ret_int. destruct (in_i64 zz); cbn; auto. }
     unfold arith.
     repeat match goal with |- context [if ?c then _ else _] => destruct c end; try exact I; apply RI.
-  - destruct (ty_eqb ta TInt) eqn:E1; [|discriminate]. destruct (ty_eqb tb TInt) eqn:E2; [|discriminate].
-    apply ty_eqb_eq in E1, E2. subst. inversion H; subst.
-    destruct va; try discriminate. destruct vb; try discriminate. reflexivity.
-  - destruct (ty_eqb ta tb); [|discriminate]. inversion H; subst. reflexivity.
-  - destruct (ty_eqb ta tb); [|discriminate]. inversion H; subst. reflexivity.
-  - destruct (ty_eqb ta TBool) eqn:E1; [|discriminate]. destruct (ty_eqb tb TBool) eqn:E2; [|discriminate].
-    apply ty_eqb_eq in E1, E2. subst. inversion H; subst.
-    destruct va; try discriminate. destruct vb; try discriminate. reflexivity.
-  - destruct (ty_eqb ta TBool) eqn:E1; [|discriminate]. destruct (ty_eqb tb TBool) eqn:E2; [|discriminate].
-    apply ty_eqb_eq in E1, E2. subst. inversion H; subst.
-    destruct va; try discriminate. destruct vb; try discriminate. reflexivity.
-  - destruct (ty_eqb ta TStr) eqn:E1; [|discriminate]. destruct (ty_eqb tb TStr) eqn:E2; [|discriminate].
-    apply ty_eqb_eq in E1, E2. subst. inversion H; subst.
-    destruct va; try discriminate. destruct vb; try discriminate. reflexivity.
+  - destruct (sub ta TInt && sub tb TInt) eqn:E; [|discriminate]. inversion H; subst.
+    destruct (TWO TInt (or_intror I) E) as [A B]. destruct va; try discriminate. destruct vb; try discriminate. reflexivity.
+  - inversion H; subst. reflexivity.
+  - inversion H; subst. reflexivity.
+  - destruct (sub ta TBool && sub tb TBool) eqn:E; [|discriminate]. inversion H; subst.
+    destruct (TWO TBool (or_intror I) E) as [A B]. destruct va; try discriminate. destruct vb; try discriminate. reflexivity.
+  - destruct (sub ta TBool && sub tb TBool) eqn:E; [|discriminate]. inversion H; subst.
+    destruct (TWO TBool (or_intror I) E) as [A B]. destruct va; try discriminate. destruct vb; try discriminate. reflexivity.
+  - destruct (sub ta TStr && sub tb TStr) eqn:E; [|discriminate]. inversion H; subst.
+    destruct (TWO TStr (or_intror I) E) as [A B]. destruct va; try discriminate. destruct vb; try discriminate. reflexivity.
 Qed.
 
 Lemma ints_ok : forall vs ts, Forall2 (fun v t => has_type v t = true) vs ts ->
-  forallb (fun t => ty_eqb t TInt) ts = true ->
+  forallb (fun t => sub t TInt) ts = true ->
   forallb (fun x => match x with VInt _ => true | _ => false end) vs = true.
 Proof.
   induction 1 as [|v t vs ts HV _ IH]; intros FB; [reflexivity|].
-  cbn [forallb] in *. apply andb_true_iff in FB. destruct FB as [E FB]. apply ty_eqb_eq in E. subst t.
+  cbn [forallb] in *. apply andb_true_iff in FB. destruct FB as [E FB].
+  pose proof (sub_sound _ _ _ HV E) as HI.
   rewrite (IH FB). destruct v; try discriminate. reflexivity.
 Qed.
 
-Lemma tys_eqb_eq a b : tys_eqb a b = true -> a = b.
+Lemma tys_sub_sound : forall vs a b, tys_sub a b = true ->
+  Forall2 (fun v t => has_type v t = true) vs a -> Forall2 (fun v t => has_type v t = true) vs b.
 Proof.
-  unfold tys_eqb. revert b. induction a as [|x a IH]; intros [|y b] H; cbn in *; try discriminate; [reflexivity|].
-  apply andb_true_iff in H. destruct H as [L H]. apply andb_true_iff in H. destruct H as [E H].
-  apply ty_eqb_eq in E. subst y. f_equal. apply IH. rewrite L. exact H.
+  unfold tys_sub. intros vs a. revert vs. induction a as [|x a IH]; intros vs [|y b] H F2; cbn in *; try discriminate.
+  - exact F2.
+  - apply andb_true_iff in H. destruct H as [L H]. apply andb_true_iff in H. destruct H as [E H].
+    inversion F2; subst. constructor; [eapply sub_sound; eauto|]. apply IH; [rewrite L; exact H|assumption].
 Qed.
 
 Lemma args_sound : forall vs ps, Forall2 (fun v t => has_type v t = true) vs (map snd ps) ->
@@ -199,68 +275,74 @@ Proof.
     constructor; [split; auto|exact Z].
 Qed.
 
-Theorem ev_sound F : fenv_ok F -> forall k n, sound_f (tc n F) (ev k F).
+Theorem ev_sound F : fenv_ok F -> forall k n rt, sound_f rt (tc n F rt) (ev k F).
 Proof.
-  intros FOK. induction k as [|k IH]; intros n G r e t H OKr; [exact I|].
+  intros FOK. induction k as [|k IH]; intros n rt G r e t H OKr; [exact I|].
   destruct n as [|n]; [discriminate|].
-  pose proof (IH n) as SF.
+  pose proof (IH n rt) as SF.
   destruct e; cbn [tc ev] in *.
   - inversion H; subst. split; [reflexivity|exact OKr].
   - inversion H; subst. split; [reflexivity|exact OKr].
   - inversion H; subst. split; [reflexivity|exact OKr].
   - (* list literal *)
-    destruct (tc_list (tc n F) G l) as [ts|] eqn:TL; [|discriminate].
-    destruct (forallb (fun t0 => ty_eqb t0 TInt) ts) eqn:FB; [|discriminate]. inversion H; subst.
-    pose proof (list_sound _ _ SF l G r ts TL OKr) as LS.
-    destruct (ev_list (ev k F) r l) as [[vs r1]| | |]; cbn [good]; auto.
-    destruct LS as [F2 OK1]. split; [|exact OK1]. cbn [has_type]. eapply ints_ok; eauto.
+    destruct (tc_list (tc n F rt) G l) as [ts|] eqn:TL; [|discriminate].
+    pose proof (list_sound _ _ rt SF l G r ts TL OKr) as LS.
+    destruct ts as [|t0 ts].
+    + inversion H; subst.
+      destruct (ev_list (ev k F) r l) as [[vs r1]| | | |w0]; cbn [good]; auto.
+      destruct LS as [F2 OK1]. inversion F2; subst. split; [reflexivity|exact OK1].
+    + destruct (forallb (fun t1 => sub t1 TInt) (t0 :: ts) && existsb (fun t1 => ty_eqb t1 TInt) (t0 :: ts)) eqn:FB; [|discriminate].
+      apply andb_true_iff in FB. destruct FB as [FB _]. inversion H; subst.
+      destruct (ev_list (ev k F) r l) as [[vs r1]| | | |w0]; cbn [good]; auto.
+      destruct LS as [F2 OK1]. split; [|exact OK1]. cbn [has_type]. eapply ints_ok; eauto.
   - (* variable *)
     pose proof (lookup_ok x G r OKr) as L. rewrite H in L. destruct L as (v & -> & HV). split; assumption.
   - (* binary operator *)
-    destruct (tc n F G e1) as [ta|] eqn:T1; [|discriminate].
-    destruct (tc n F G e2) as [tb|] eqn:T2; [|discriminate].
-    pose proof (SF G r e1 ta T1 OKr) as G1. destruct (ev k F r e1) as [[va r1]| | |]; cbn [good] in *; auto.
+    destruct (tc n F rt G e1) as [ta|] eqn:T1; [|discriminate].
+    destruct (tc n F rt G e2) as [tb|] eqn:T2; [|discriminate].
+    pose proof (SF G r e1 ta T1 OKr) as G1. destruct (ev k F r e1) as [[va r1]| | | |w0]; cbn [good] in *; auto.
     destruct G1 as [HA OK1].
-    pose proof (SF G r1 e2 tb T2 OK1) as G2. destruct (ev k F r1 e2) as [[vb r2]| | |]; cbn [good] in *; auto.
+    pose proof (SF G r1 e2 tb T2 OK1) as G2. destruct (ev k F r1 e2) as [[vb r2]| | | |w0]; cbn [good] in *; auto.
     destruct G2 as [HB OK2].
-    pose proof (bop_sound o ta tb t va vb H HA HB) as B. destruct (eval_bop o va vb); cbn [good]; auto.
+    pose proof (bop_sound o ta tb t va vb H HA HB) as B. destruct (eval_bop o va vb); cbn [good]; auto; try contradiction.
   - (* call *)
     destruct (lookup f G) eqn:LF; [discriminate|].
     pose proof (lookup_ok f G r OKr) as L. rewrite LF in L. rewrite L.
     destruct (assoc f F) as [d|] eqn:AF; [|discriminate].
-    destruct (tc_list (tc n F) G args) as [ts|] eqn:TL; [|discriminate].
-    destruct (tys_eqb ts (map snd (fparams d))) eqn:TE; [|discriminate]. inversion H; subst.
-    apply tys_eqb_eq in TE. subst ts.
-    pose proof (list_sound _ _ SF args G r _ TL OKr) as LS.
-    destruct (ev_list (ev k F) r args) as [[vs r1]| | |]; cbn [good]; auto.
-    destruct LS as [F2 OK1]. destruct (args_sound vs (fparams d) F2) as (LEN & AOK & ZOK).
+    destruct (tc_list (tc n F rt) G args) as [ts|] eqn:TL; [|discriminate].
+    destruct (tys_sub ts (map snd (fparams d))) eqn:TE; [|discriminate]. inversion H; subst.
+    pose proof (list_sound _ _ rt SF args G r _ TL OKr) as LS.
+    destruct (ev_list (ev k F) r args) as [[vs r1]| | | |w0]; cbn [good]; auto.
+    destruct LS as [F2 OK1]. apply (tys_sub_sound vs _ _ TE) in F2.
+    destruct (args_sound vs (fparams d) F2) as (LEN & AOK & ZOK).
     rewrite LEN, Nat.eqb_refl, AOK. cbn [negb].
-    destruct (FOK f d AF) as (n' & TB).
+    destruct (FOK f d AF) as (n' & tb & TB & TBE).
     assert (OKB : env_ok [fparams d] [zip_params (fparams d) vs]) by (constructor; [exact ZOK|constructor]).
-    pose proof (stmts_sound _ _ (IH n') (fbody d) (fparams d) [] _ (fret d) TB OKB) as BS.
-    destruct (ev_stmts (ev k F) [zip_params (fparams d) vs] (fbody d)) as [[v rb]| | |]; cbn [good]; auto.
-    destruct BS as [HV _]. rewrite HV. split; assumption.
+    pose proof (stmts_sound _ _ (Some (fret d)) (IH n' (Some (fret d))) (fbody d) (fparams d) [] _ tb TB OKB) as BS.
+    destruct (ev_stmts (ev k F) [zip_params (fparams d) vs] (fbody d)) as [[v rb]| | | |w0]; cbn [good]; auto.
+    + destruct BS as [HV _]. pose proof (sub_sound _ _ _ HV TBE) as HV2. rewrite HV2. cbn [good]. split; auto.
+    + cbn [ret_ok] in BS. rewrite BS. cbn [good]. split; auto.
   - (* println *)
-    destruct (tc n F G e) as [ta|] eqn:T1; [|discriminate]. destruct ta; try discriminate. inversion H; subst.
-    pose proof (SF G r e TStr T1 OKr) as G1. destruct (ev k F r e) as [[va r1]| | |]; cbn [good] in *; auto.
-    destruct G1 as [HA OK1]. destruct va; try discriminate. split; [reflexivity|exact OK1].
+    destruct (tc n F rt G e) as [ta|] eqn:T1; [|discriminate]. destruct (sub ta TStr) eqn:SB; [|discriminate]. inversion H; subst.
+    pose proof (SF G r e ta T1 OKr) as G1. destruct (ev k F r e) as [[va r1]| | | |w0]; cbn [good] in *; auto.
+    destruct G1 as [HA OK1]. pose proof (sub_sound _ _ _ HA SB) as HS. destruct va; try discriminate. split; [reflexivity|exact OK1].
   - (* string_repr *)
-    destruct (tc n F G e) as [ta|] eqn:T1; [|discriminate]. inversion H; subst.
-    pose proof (SF G r e ta T1 OKr) as G1. destruct (ev k F r e) as [[va r1]| | |]; cbn [good] in *; auto.
+    destruct (tc n F rt G e) as [ta|] eqn:T1; [|discriminate]. inversion H; subst.
+    pose proof (SF G r e ta T1 OKr) as G1. destruct (ev k F r e) as [[va r1]| | | |w0]; cbn [good] in *; auto.
     destruct G1 as [HA OK1]. split; [reflexivity|exact OK1].
   - discriminate.
   - (* assignment *)
     destruct (lookup x G) as [tx|] eqn:LX; [|discriminate].
-    destruct (tc n F G e) as [tr|] eqn:T1; [|discriminate].
-    destruct (ty_eqb tx tr) eqn:E; [|discriminate]. apply ty_eqb_eq in E. subst tr. inversion H; subst.
-    pose proof (SF G r e tx T1 OKr) as G1. destruct (ev k F r e) as [[v r1]| | |]; cbn [good] in *; auto.
-    destruct G1 as [HV OK1]. destruct (update_ok x tx v G r1 OK1 LX HV) as (r2 & -> & OK2).
+    destruct (tc n F rt G e) as [tr|] eqn:T1; [|discriminate].
+    destruct (sub tr tx) eqn:E; [|discriminate]. inversion H; subst.
+    pose proof (SF G r e tr T1 OKr) as G1. destruct (ev k F r e) as [[v r1]| | | |w0]; cbn [good] in *; auto.
+    destruct G1 as [HV OK1]. destruct (update_ok x tx v G r1 OK1 LX (sub_sound _ _ _ HV E)) as (r2 & -> & OK2).
     split; [reflexivity|exact OK2].
   - (* += / -= *)
     destruct (lookup x G) as [tx|] eqn:LX; [|discriminate]. destruct tx; try discriminate.
-    destruct (tc n F G e) as [tr|] eqn:T1; [|discriminate]. destruct tr; try discriminate. inversion H; subst.
-    pose proof (SF G r e TInt T1 OKr) as G1. destruct (ev k F r e) as [[v r1]| | |]; cbn [good] in *; auto.
-    destruct G1 as [HV OK1].
+    destruct (tc n F rt G e) as [tr|] eqn:T1; [|discriminate]. destruct (sub tr TInt) eqn:SB; [|discriminate]. inversion H; subst.
+    pose proof (SF G r e tr T1 OKr) as G1. destruct (ev k F r e) as [[v r1]| | | |w0]; cbn [good] in *; auto.
+    destruct G1 as [HV0 OK1]. pose proof (sub_sound _ _ _ HV0 SB) as HV.
     pose proof (lookup_ok x G r1 OK1) as L. rewrite LX in L. destruct L as (w & -> & HW).
     destruct w; try discriminate. destruct v; try discriminate.
     unfold ret_int. destruct (in_i64 _); cbn [good]; auto.
@@ -269,34 +351,105 @@ Proof.
     split; [reflexivity|exact OK2].
   - (* if *)
     destruct el as [eb|].
-    + destruct (tc n F G e) as [tcnd|] eqn:T1; [|discriminate]. destruct tcnd; try discriminate.
-      destruct (tc_stmts (tc n F) ([] :: G) th) as [t1|] eqn:TT; [|discriminate].
-      destruct (tc_stmts (tc n F) ([] :: G) eb) as [t2|] eqn:TE; [|discriminate].
-      destruct (ty_eqb t1 t2) eqn:E; [|discriminate]. apply ty_eqb_eq in E. subst t2. inversion H; subst.
-      pose proof (SF G r e TBool T1 OKr) as G1. destruct (ev k F r e) as [[v r1]| | |]; cbn [good] in *; auto.
-      destruct G1 as [HV OK1]. destruct v; try discriminate. destruct b.
-      * pose proof (block_sound _ _ SF th G r1 t TT OK1) as B.
-        destruct (ev_block (ev k F) r1 th) as [[v2 r2]| | |]; cbn [good] in *; auto.
-      * exact (block_sound _ _ SF eb G r1 t TE OK1).
-    + destruct (tc n F G e) as [tcnd|] eqn:T1; [|discriminate]. destruct tcnd; try discriminate.
-      destruct (tc_stmts (tc n F) ([] :: G) th) as [t1|] eqn:TT; [|discriminate]. inversion H; subst.
-      pose proof (SF G r e TBool T1 OKr) as G1. destruct (ev k F r e) as [[v r1]| | |]; cbn [good] in *; auto.
-      destruct G1 as [HV OK1]. destruct v; try discriminate. destruct b.
-      * pose proof (block_sound _ _ SF th G r1 t1 TT OK1) as B.
-        destruct (ev_block (ev k F) r1 th) as [[v2 r2]| | |]; cbn [good] in *; auto.
+    + destruct (tc n F rt G e) as [tcnd|] eqn:T1; [|discriminate].
+      destruct (tc_stmts (tc n F rt) ([] :: G) th) as [t1|] eqn:TT; [|discriminate].
+      destruct (tc_stmts (tc n F rt) ([] :: G) eb) as [t2|] eqn:TE; [|discriminate].
+      destruct (sub tcnd TBool) eqn:SC; [|discriminate].
+      apply join_sound in H. destruct H as [S1 S2].
+      pose proof (SF G r e tcnd T1 OKr) as G1. destruct (ev k F r e) as [[v r1]| | | |w0]; cbn [good] in *; auto.
+      destruct G1 as [HV0 OK1]. pose proof (sub_sound _ _ _ HV0 SC) as HV. destruct v; try discriminate. destruct b.
+      * pose proof (block_sound _ _ rt SF th G r1 t1 TT OK1) as B.
+        destruct (ev_block (ev k F) r1 th) as [[v2 r2]| | | |w0]; cbn [good] in *; auto.
+        destruct B as [HB OK2]. split; [eapply sub_sound; eauto|exact OK2].
+      * pose proof (block_sound _ _ rt SF eb G r1 t2 TE OK1) as B.
+        destruct (ev_block (ev k F) r1 eb) as [[v2 r2]| | | |w0]; cbn [good] in *; auto.
+        destruct B as [HB OK2]. split; [eapply sub_sound; eauto|exact OK2].
+    + destruct (tc n F rt G e) as [tcnd|] eqn:T1; [|discriminate].
+      destruct (tc_stmts (tc n F rt) ([] :: G) th) as [t1|] eqn:TT; [|discriminate].
+      destruct (sub tcnd TBool) eqn:SC; [|discriminate]. inversion H; subst.
+      pose proof (SF G r e tcnd T1 OKr) as G1. destruct (ev k F r e) as [[v r1]| | | |w0]; cbn [good] in *; auto.
+      destruct G1 as [HV0 OK1]. pose proof (sub_sound _ _ _ HV0 SC) as HV. destruct v; try discriminate. destruct b.
+      * pose proof (block_sound _ _ rt SF th G r1 t1 TT OK1) as B.
+        destruct (ev_block (ev k F) r1 th) as [[v2 r2]| | | |w0]; cbn [good] in *; auto.
         destruct B as [_ OK2]. split; [reflexivity|exact OK2].
       * split; [reflexivity|exact OK1].
   - (* while *)
-    destruct (tc n F G e) as [tcnd|] eqn:T1; [|discriminate]. destruct tcnd; try discriminate.
-    destruct (tc_stmts (tc n F) ([] :: G) b) as [t1|] eqn:TT; [|discriminate]. inversion H; subst.
-    pose proof (SF G r e TBool T1 OKr) as G1. destruct (ev k F r e) as [[v r1]| | |]; cbn [good] in *; auto.
-    destruct G1 as [HV OK1]. destruct v; try discriminate. destruct b0.
-    + pose proof (block_sound _ _ SF b G r1 t1 TT OK1) as B.
-      destruct (ev_block (ev k F) r1 b) as [[v2 r2]| | |]; cbn [good] in *; auto.
+    destruct (tc n F rt G e) as [tcnd|] eqn:T1; [|discriminate].
+    destruct (tc_stmts (tc n F rt) ([] :: G) b) as [t1|] eqn:TT; [|discriminate].
+    destruct (sub tcnd TBool) eqn:SC; [|discriminate]. inversion H; subst.
+    pose proof (SF G r e tcnd T1 OKr) as G1. destruct (ev k F r e) as [[v r1]| | | |w0]; cbn [good] in *; auto.
+    destruct G1 as [HV0 OK1]. pose proof (sub_sound _ _ _ HV0 SC) as HV. destruct v; try discriminate. destruct b0.
+    + pose proof (block_sound _ _ rt SF b G r1 t1 TT OK1) as B.
+      destruct (ev_block (ev k F) r1 b) as [[v2 r2]| | | |w0]; cbn [good] in *; auto.
       destruct B as [_ OK2].
-      apply (IH (S n) G r2 (TmWhile e b) TUnit); [|exact OK2].
-      cbn [tc]. rewrite T1, TT. reflexivity.
+      apply (IH (S n) rt G r2 (TmWhile e b) TUnit); [|exact OK2].
+      cbn [tc]. rewrite T1, TT, SC. reflexivity.
     + split; [reflexivity|exact OK1].
+  - (* Some(e) *)
+    destruct (tc n F rt G e) as [ta|] eqn:T1; [|discriminate]. inversion H; subst.
+    pose proof (SF G r e ta T1 OKr) as G1. destruct (ev k F r e) as [[va r1]| | | |w0]; cbn [good] in *; auto.
+  - (* None *)
+    inversion H; subst. split; [reflexivity|exact OKr].
+  - (* match *)
+    destruct (tc n F rt G e) as [ts|] eqn:T1; [|discriminate]. destruct ts as [| | | | | | |tp|]; try discriminate.
+    pose proof (SF G r e (TOpt tp) T1 OKr) as G1. destruct (ev k F r e) as [[v r1]| | | |w0]; cbn [good] in *; auto.
+    destruct G1 as [HV OK1].
+    assert (BOTH : forall x b1 b2,
+              match tc_stmts (tc n F rt) ([(x, tp)] :: G) b1, tc_stmts (tc n F rt) ([] :: G) b2 with
+              | Some t1, Some t2 => join t1 t2
+              | _, _ => None
+              end = Some t ->
+              forall arms', (arms' = [(PSome x, b1); (PNone, b2)] \/ arms' = [(PNone, b2); (PSome x, b1)]) ->
+              good rt t G match v with
+                          | VSome _ | VNone =>
+                              match pick arms' v with
+                              | Some (sc0, body) => ev_block_in (ev k F) sc0 r1 body
+                              | None => TypeErr
+                              end
+                          | _ => TypeErr
+                          end).
+    { intros x b1 b2 HB arms' SH.
+      destruct (tc_stmts (tc n F rt) ([(x, tp)] :: G) b1) as [t1|] eqn:TB1; [|discriminate].
+      destruct (tc_stmts (tc n F rt) ([] :: G) b2) as [t2|] eqn:TB2; [|discriminate].
+      apply join_sound in HB. destruct HB as [S1 S2].
+      assert (UP : forall tb x0, sub tb t = true -> good rt tb G x0 -> good rt t G x0).
+      { intros tb x0 SB GX. destruct x0 as [[v2 r2]| | | |w0]; cbn [good] in *; auto.
+        destruct GX as [HB2 OK2]. split; [eapply sub_sound; eauto|exact OK2]. }
+      destruct v; try discriminate.
+      - (* Some w *)
+        assert (PK : pick arms' (VSome v) = Some ([(x, v)], b1)) by (destruct SH as [->| ->]; reflexivity).
+        rewrite PK. apply (UP t1 _ S1). apply (block_in_sound _ _ rt SF b1 [(x, tp)] [(x, v)] G r1 t1 TB1); [|exact OK1].
+        constructor; [split; [reflexivity|exact HV]|constructor].
+      - assert (PK : pick arms' VNone = Some ([], b2)) by (destruct SH as [->| ->]; reflexivity).
+        rewrite PK. apply (UP t2 _ S2). apply (block_in_sound _ _ rt SF b2 [] [] G r1 t2 TB2); [constructor|exact OK1]. }
+    destruct arms as [|[[x1|] b1] [|[[x2|] b2] [|a3 arms]]]; try discriminate.
+    + eapply BOTH; [exact H|now left].
+    + eapply BOTH; [exact H|now right].
+  - (* for *)
+    destruct (tc n F rt G e) as [ti|] eqn:T1; [|discriminate]. destruct ti; try discriminate.
+    + destruct (tc_stmts (tc n F rt) ([(x, TInt)] :: G) b) as [t1|] eqn:TT; [|discriminate]. inversion H; subst.
+      pose proof (SF G r e TListInt T1 OKr) as G1. destruct (ev k F r e) as [[v r1]| | | |w0]; cbn [good] in *; auto.
+      destruct G1 as [HV OK1]. destruct v; try discriminate.
+      apply (for_sound _ _ rt SF x TInt b G t1 TT l r1); [|exact OK1].
+      cbn [has_type] in HV. rewrite forallb_forall in *. intros v IN. specialize (HV v IN). destruct v; try discriminate. reflexivity.
+    + destruct (tc_stmts (tc n F rt) ([(x, TNoValue)] :: G) b) as [t1|] eqn:TT; [|discriminate]. inversion H; subst.
+      pose proof (SF G r e TListEmpty T1 OKr) as G1. destruct (ev k F r e) as [[v r1]| | | |w0]; cbn [good] in *; auto.
+      destruct G1 as [HV OK1]. destruct v; try discriminate. cbn [has_type] in HV. destruct l; [|discriminate].
+      apply (for_sound _ _ rt SF x TNoValue b G t1 TT [] r1); [reflexivity|exact OK1].
+  - (* return *)
+    destruct rt as [tr|]; [|discriminate].
+    destruct (tc n F (Some tr) G e) as [ta|] eqn:T1; [|discriminate].
+    destruct (sub ta tr) eqn:E; [|discriminate]. inversion H; subst.
+    pose proof (SF G r e ta T1 OKr) as G1. destruct (ev k F r e) as [[v r1]| | | |w0]; cbn [good] in *; auto.
+    destruct G1 as [HV _]. eapply sub_sound; eauto.
+  - (* pair *)
+    destruct (tc n F rt G e1) as [ta|] eqn:T1; [|discriminate].
+    destruct (tc n F rt G e2) as [tb|] eqn:T2; [|discriminate]. inversion H; subst.
+    pose proof (SF G r e1 ta T1 OKr) as G1. destruct (ev k F r e1) as [[va r1]| | | |w0]; cbn [good] in *; auto.
+    destruct G1 as [HA OK1].
+    pose proof (SF G r1 e2 tb T2 OK1) as G2. destruct (ev k F r1 e2) as [[vb r2]| | | |w0]; cbn [good] in *; auto.
+    destruct G2 as [HB OK2]. split; [|exact OK2]. cbn [has_type]. rewrite HA, HB. reflexivity.
+  - discriminate.
 Qed.
 
 Lemma assoc_in {A} x : forall (l : list (ident * A)) d, assoc x l = Some d -> In (x, d) l.
@@ -313,7 +466,7 @@ Proof.
   rewrite forallb_forall in H. intros f d A. apply assoc_in in A. specialize (H _ A). cbn [snd] in H.
   unfold tc_fun in H. eexists.
   destruct (tc_stmts _ [fparams d] (fbody d)) as [t|] eqn:T; [|discriminate].
-  apply ty_eqb_eq in H. subst t. exact T.
+  exists t. split; [exact T|exact H].
 Qed.
 
 (* accepted programs never raise a type-related runtime error, whatever the fuel *)
@@ -323,8 +476,8 @@ Proof.
   unfold tc_prog in H. apply andb_true_iff in H. destruct H as [_ H].
   destruct (tc_stmts _ [[]] (pmain p)) as [t|] eqn:T; [|discriminate].
   assert (OK0 : env_ok [[]] [[]]) by (repeat constructor).
-  pose proof (stmts_sound _ _ (ev_sound _ FOK fuel _) (pmain p) [] [] [[]] t T OK0) as S.
-  unfold run. destruct (ev_stmts (ev fuel (pfuns p)) [[]] (pmain p)) as [[v r]| | |]; try discriminate. contradiction.
+  pose proof (stmts_sound _ _ None (ev_sound _ FOK fuel _ None) (pmain p) [] [] [[]] t T OK0) as S.
+  unfold run. destruct (ev_stmts (ev fuel (pfuns p)) [[]] (pmain p)) as [[v r]| | | |w0]; try discriminate. contradiction.
 Qed.
 
 (* ---- examples ---- *)
@@ -348,4 +501,50 @@ Definition ex_bad : program :=
   {| pfuns := [(1%N, ex_add)]; pmain := [TmBin (OArith 0) (TmCall 1%N [TmInt 1; TmBool true]) (TmStr [])] |}.
 
 Lemma ex_bad_rejected : tc_prog ex_bad = false /\ run 100 ex_bad = TypeError.
+Proof. split; vm_compute; reflexivity. Qed.
+
+(* fun first_big(l: List<Int>, k: Int): Option<Int> { for x in l { if x > k { return Some(x) } }  None }
+   let r = first_big([1, 5, 9], 3)
+   match r { Some(m) => { println(string_repr(m)) } None => { println("none") } }
+   match first_big([], 0) { Some(m) => m + 1, None => 0 } *)
+Definition ex_first_big : fdef :=
+  {| fparams := [(2%N, TListInt); (3%N, TInt)]; fret := TOpt TInt;
+     fbody := [ TmFor 4%N (TmVar 2%N)
+                  [TmIf (TmBin (OCmp 2) (TmVar 4%N) (TmVar 3%N)) [TmReturn (TmSome (TmVar 4%N))] None];
+                TmNone ] |}.
+Definition ex_wide : program :=
+  {| pfuns := [(1%N, ex_first_big)];
+     pmain := [ TmLet 5%N (TmCall 1%N [TmList [TmInt 1; TmInt 5; TmInt 9]; TmInt 3]);
+                TmMatch (TmVar 5%N) [(PSome 6%N, [TmPrintln (TmRepr (TmVar 6%N))]); (PNone, [TmPrintln (TmStr [])])];
+                TmMatch (TmCall 1%N [TmList []; TmInt 0]) [(PSome 6%N, [TmBin (OArith 0) (TmVar 6%N) (TmInt 1)]); (PNone, [TmInt 0])] ] |}.
+
+Lemma ex_wide_accepted : tc_prog ex_wide = true /\ run 200 ex_wide = Finished (VInt 0).
+Proof. split; vm_compute; reflexivity. Qed.
+
+(* the value found by the early return really is Some(5) *)
+Lemma ex_wide_return :
+  run 200 {| pfuns := [(1%N, ex_first_big)]; pmain := [TmCall 1%N [TmList [TmInt 1; TmInt 5; TmInt 9]; TmInt 3]] |}
+  = Finished (VSome (VInt 5)).
+Proof. vm_compute. reflexivity. Qed.
+
+(* a match without the None arm is rejected, and it does fail at run time *)
+Definition ex_nonexh : program :=
+  {| pfuns := []; pmain := [TmMatch TmNone [(PSome 6%N, [TmInt 1])]] |}.
+Lemma ex_nonexh_rejected : tc_prog ex_nonexh = false /\ run 100 ex_nonexh = TypeError.
+Proof. split; vm_compute; reflexivity. Qed.
+
+(* fun swap(p: (Int, String)): (String, Int) { let (a, b) = p  (b, a) }
+   let (s, n) = swap((3, "x"))   n + 1 *)
+Definition ex_swap : fdef :=
+  {| fparams := [(2%N, TPair TInt TStr)]; fret := TPair TStr TInt;
+     fbody := [TmLetPair 3%N 4%N (TmVar 2%N); TmPair (TmVar 4%N) (TmVar 3%N)] |}.
+Definition ex_pairs : program :=
+  {| pfuns := [(1%N, ex_swap)];
+     pmain := [TmLetPair 5%N 6%N (TmCall 1%N [TmPair (TmInt 3) (TmStr [120%N])]); TmBin (OArith 0) (TmVar 6%N) (TmInt 1)] |}.
+Lemma ex_pairs_accepted : tc_prog ex_pairs = true /\ run 100 ex_pairs = Finished (VInt 4).
+Proof. split; vm_compute; reflexivity. Qed.
+
+(* destructuring something that is not a pair is rejected, and fails at run time *)
+Definition ex_badpair : program := {| pfuns := []; pmain := [TmLetPair 5%N 6%N (TmInt 1); TmVar 5%N] |}.
+Lemma ex_badpair_rejected : tc_prog ex_badpair = false /\ run 100 ex_badpair = TypeError.
 Proof. split; vm_compute; reflexivity. Qed.
